@@ -38,6 +38,9 @@ def trailing(w, r):
 
 c = contract("cisco_acl.wildcard.Wildcard._create_ncwb", dict(self=TObj("Wildcard")), TTuple(TList(TInt), TInt), props=("C05",))
 c.require("mask is a 32-bit word", lambda cx, self: z3.ULE(S._t(cx.get(self, "_wildmask")), 0xFFFFFFFF))
+# BIT of the mask word is its definition (32-way macro), so that bodies that read the bits with shifts and masks instead of format() are judged on the same predicate
+from pyvc.values import bit_definition   # noqa: E402
+c.ghost["defs"] = [lambda cx, self: z3.And(*bit_definition([S._t(cx.get(self, "_wildmask"))]))]
 c.may_raise("NetmaskValueError", None, label="limit")
 c.ensure("prefixlen", lambda cx, result, self: trailing(S._t(cx.get(self, "_wildmask")), 32 - S._t(result[1])))
 c.ensure("ncwb.sound", lambda cx, result, self: S.forall(0, result[0].n, lambda j: z3.And(
